@@ -294,6 +294,12 @@ pub proof fn lemma_C03_defaulted_parameter_is_not_a_request(v: FnV, d: Expr, k: 
     let base2 = Set::<Seq<char>>::empty().insert("self"@).insert("request"@);
     lemma_declared_of_contains(ps, n, base1, pname(ps[k]));
     lemma_declared_of_contains(ps, n, base2, pname(ps[k]));
+    assert(declared_fixture(v.name, v.args).contains(pname(ps[k])));
+    assert(declared_test(v.args).contains(pname(ps[k])));
+    assert(!is_dep(ps[k]) && !is_test_req(ps[k]));
+    assert(deps_of(ps, k + 1) == deps_of(ps, k));
+    assert(param_uses(ps, k + 1, true, f, li) == param_uses(ps, k, true, f, li));
+    assert(param_uses(ps, k + 1, false, f, li) == param_uses(ps, k, false, f, li));
 }
 pub proof fn lemma_declared_of_contains(ps: Seq<AArg>, n: int, base: Set<Seq<char>>, x: Seq<char>)
     requires 0 <= n <= ps.len(),
